@@ -12,6 +12,8 @@ CONFIGS = {
     "km": dict(crate="kani-km", features=[], cfg_miri=False, rustflags=""),
     "km-rel": dict(crate="kani-km", features=[], cfg_miri=False, rustflags="-C debug-assertions=off"),
     "km-r4": dict(crate="kani-km", features=[], cfg_miri=True, rustflags=""),
+    # KV-lite: facts about the REAL hashbrown the model relies on (portable group via --cfg miri)
+    "kv": dict(crate="kani-kv", features=[], cfg_miri=True, rustflags=""),
     "km-serde": dict(crate="kani-km", features=["serde"], cfg_miri=False, rustflags=""),
     "km-cnt": dict(crate="kani-km", features=["counters"], cfg_miri=False, rustflags=""),
     "km-cnt-rel": dict(crate="kani-km", features=["counters"], cfg_miri=False, rustflags="-C debug-assertions=off"),
@@ -64,8 +66,9 @@ SUITES = {
                           "rt_retain__s8_8g0", "rt_drain_filter__s8_8g0_m1110_end", "rt_drain_filter__s8_4a_m0111_end",
                           "zst_remove__old", "zst_remove__old2", "en_occ_remove__s8_8g4", "en_occ_replace_with__s8_8g0",
                           "it_drain__s8_8g4_j1", "it_into_iter__s8_8g4_j1", "st_insert__s8_8g4"]),
-                  ("km-rel", ["st_raw_replace_with__s8_8g0", "st_remove__s8_8g0"])],
-        "thorough": [("km", ["st_*", "rt_*", "zst_*", "en_occ_*", "it_drain__*", "it_into_iter__*", "pan_raw_*"]),
+                  ("km-rel", ["st_raw_replace_with__s8_8g0", "st_remove__s8_8g0"]),
+                  ("kv", ["kv_reflect_insert_is_not_an_inverse", "kv_replace_bucket_with_restores", "kv_sizing_small"])],
+        "thorough": [("kv", ["kv_*"]), ("km", ["st_*", "rt_*", "zst_*", "en_occ_*", "it_drain__*", "it_into_iter__*", "pan_raw_*"]),
                      ("km-rel", ["st_raw_replace_with__*", "st_remove__*", "rt_retain__s8_8g0", "en_occ_replace_with__*"])],
     },
     "C07": {
@@ -151,6 +154,7 @@ PROPS = sorted(SUITES)
 
 # What each property's evidence says about itself (bounds and assumptions common to KM).
 KM_ASSUMPTIONS = [
+    "model fidelity: KV-lite harnesses (kani-kv, part of C05's suite) decide on the REAL hashbrown 0.14.5 (portable group) the facts the model's iterator rests on: reflect_remove-before-remove keeps the iterator exact for every cursor position and victim (16 buckets, 10 elements), reflect_insert does not undo reflect_remove for the next-to-yield bucket, replace_bucket_with restores the bucket, sizing of small tables; everything else about the model is by reading the dependency's source",
     "hashbrown is replaced by the contract model /verif/hbmodel (slots mode: <= 16 buckets per table, group width 4); griddle itself is compiled unchanged from /repo's working tree",
     "the model over-approximates placement (lowest free bucket; EMPTY-vs-tombstone choice nondeterministic) and tombstone reclamation (nondeterministic per erase); probing is abstracted: a lookup finds an equal element iff it was stored under the hash being looked up",
     "sizing arithmetic is hashbrown's own source text, extracted at check time from the registry copy named by /repo/Cargo.lock",
